@@ -197,6 +197,13 @@ def materialise_assembly(case):
             if nrefs or rng.random() < 0.5:
                 # pairwise distinct within a record; shared between records through the common pool
                 spec["refs"] = [dict(_ref(j), span=rng.random() < 0.5) for j in rng.sample(range(REF_POOL), nrefs)]
+        if spec.get("refs"):
+            # own stream: some references are about a part of the plasmid only ("bases 120 to 480")
+            rs = gen.rng_for(case["seed"], "assembly-ref-spans", case["enzyme"], case["i"], idx)
+            for ref in spec["refs"]:
+                if ref["span"] and rs.random() < 0.4:
+                    a = rs.randrange(n)
+                    ref["span"] = [[a, rs.randint(a + 1, n)]]
         r = 0
         if opts["rotate"]:
             if rng.random() < 0.6:
@@ -213,10 +220,10 @@ def materialise_assembly(case):
         r %= n
         if opts["features"]:
             spec["features"] = _snap_features(rng, n, b["frag_start"], b["frag_len"], rid, rng.randint(0, 8), refs=nrefs, origin=r)
-        # own stream (the draws above stay what they were): the topology annotation as plasmid editors and parsers spell it
-        ra = gen.rng_for(case["seed"], "assembly-annotations", case["enzyme"], case["i"], idx)
-        if ra.random() < 0.4:
-            spec["annotations"] = {"topology": ra.choice(["circular", "Circular", "CIRCULAR"]), "molecule_type": "DNA"}
+        # own stream (the draws above stay what they were): record-wide annotations as plasmid editors and parsers produce them
+        ann = gen.annotation_variety(case["seed"], "assembly", case["enzyme"], case["i"], idx)
+        if ann is not None:
+            spec["annotations"] = ann
         spec = _rotate_spec(rng, spec, r)
         spec["built"] = {"rot_left": r, "frag_start_unrotated": b["frag_start"], "frag_len": b["frag_len"]}
         specs.append(spec)
